@@ -85,6 +85,41 @@ def shard_exception_violation(prop_id, shard, tier, seed, exc):
                       f"{str({k: v for k, v in shard.items() if k != 'menu'})[:300]}\n" + traceback.format_exc(limit=-6)}
 
 
+def pack(obj):
+    import base64
+    import pickle
+    return base64.b64encode(pickle.dumps(obj)).decode()
+
+
+def _case_key(case):
+    return canon({k: v for k, v in (case or {}).items() if k not in ("shard_replay", "session_shard")})
+
+
+def rerun_shard_for(mod, shard, tier, seed, viol):
+    """run one shard again in this process and look for the same (subcheck, case) among its violations"""
+    try:
+        res = mod.run_shard(shard, tier, seed)
+    except Exception as exc:
+        if raised_by_library(exc):
+            return {"violated": True, "detail": f"exception: {type(exc).__name__}: {exc} escaped from the code under test"}
+        raise InternalError("shard re-run crashed:\n" + traceback.format_exc())
+    want = _case_key(viol.get("case"))
+    for x in res.get("violations", []):
+        if x.get("subcheck") == viol.get("subcheck") and _case_key(x.get("case")) == want:
+            return {"violated": True, "detail": "reproduced by re-running the exploration history (shard) that found it; not "
+                                                "reproducible from the case alone - state carried between calls: "
+                                                + str(x.get("detail"))}
+    return {"violated": False, "detail": None}
+
+
+def replay_shard_history(mod, viol):
+    import base64
+    import pickle
+    sr = viol["case"]["shard_replay"]
+    shard = pickle.loads(base64.b64decode(sr["shard_pickle_b64"]))
+    return rerun_shard_for(mod, shard, sr.get("tier", "quick"), sr.get("seed", 0), viol)
+
+
 def replay_shard_exception(mod, viol):
     import base64
     import pickle
@@ -156,6 +191,8 @@ def confirm(mod, viol):
     try:
         if (viol.get("case") or {}).get("shard_exception"):
             return replay_shard_exception(mod, viol)
+        if (viol.get("case") or {}).get("shard_replay"):
+            return replay_shard_history(mod, viol)
         res = mod.replay(viol)
     except Exception as exc:
         if raised_by_library(exc):
@@ -244,6 +281,8 @@ def run(prop_id, tier, seed, procs, budget=None, only_slice=None):
                 if len(lst) < 3:
                     lst.append(smp)
             viol_total += res.get("violations_total", len(res.get("violations", [])))
+            for v in res.get("violations", []):
+                v["_shard_idx"] = res["_idx"]
             viols.extend(res.get("violations", []))
     finally:
         pool.terminate()
@@ -258,6 +297,7 @@ def run(prop_id, tier, seed, procs, budget=None, only_slice=None):
     finding_cases = {canon(f["case"]): f for f in findings if f.get("kind") == "finding" and "case" in f}
     known_lines = []
     confirmed = []
+    shard_reruns = 0
     seen = set()
     for v in viols:
         key = canon(v.get("case"))
@@ -268,8 +308,19 @@ def run(prop_id, tier, seed, procs, budget=None, only_slice=None):
             continue  # reported below through the explicit replay of the finding
         if len(confirmed) >= 40:
             continue  # enough confirmed counter-examples; the raw total is reported separately
+        shard_idx = v.pop("_shard_idx", None)
         try:
             again = confirm(mod, v)
+            if not again.get("violated") and shard_idx is not None and shard_reruns < 4:
+                # not reproducible from the case alone: the failure may depend on what the same process did before
+                # (state carried between calls).  Re-run the whole shard that found it; if the same case fails again the
+                # violation is real and its replay artefact is the shard itself.
+                shard_reruns += 1
+                again = rerun_shard_for(mod, plan[shard_idx], tier, seed, v)
+                if again.get("violated"):
+                    v = dict(v)
+                    v["case"] = dict(v.get("case") or {})
+                    v["case"]["shard_replay"] = {"tier": tier, "seed": seed, "shard_pickle_b64": pack(plan[shard_idx])}
         except InternalError as exc:
             sys.stderr.write(str(exc) + "\n")
             return 2
